@@ -36,6 +36,8 @@ CONSTANTS
     Policy,             \* "woi" (write on insertion) | "woe" (write on eviction)
     FlushOnClose,       \* BOOLEAN
     TombLog,            \* BOOLEAN: tombstone log enabled
+    Reject,             \* set of hashes the admission filter rejects (Store::enqueue then deletes the key from the
+                        \* disk tier instead, so that no older copy of it stays readable)
     BufCap              \* entries the flusher's buffer holds (io buffer size / entry size); a submission that does
                         \* not fit is dropped (storage_queue_buffer_overflow)
 
@@ -81,10 +83,19 @@ MemVer(T, k) == LET i == CHOOSE i \in DOMAIN T.mem : T.mem[i].k = k IN T.mem[i].
 MemWithout(T, k) == SelectSeq(T.mem, LAMBDA e : e.k # k)
 
 -------------------------------------------------------------------------------
-(* Store::enqueue (admission filter admits everything here)                  *)
+(* Store::enqueue                                                            *)
+\* indexer insert_inner: replaced only by an equal-or-higher sequence
+IndexPut(ix, h, new) == IF new.seq >= ix[h].seq \/ ix[h].kind = "none" THEN [ix EXCEPT ![h] = new] ELSE ix
+
 Enqueue(T, k, v, age) ==
     LET T1 == [T EXCEPT !.enq = Append(@, Hash[k]), !.enqv = Append(@, v)] IN
-    IF ~T.active \/ age = "young"
+    IF Hash[k] \in Reject
+    THEN \* not admitted: Store::delete (a no-op once the engine is closed)
+         IF T.active THEN [T1 EXCEPT !.keeper[k] = 0, !.seq = @ + 1,
+                                     !.index = IndexPut(@, Hash[k], [kind |-> "tomb", k |-> 0, v |-> 0, seq |-> T.seq]),
+                                     !.buf = Append(@, <<"t", Hash[k], T.seq>>)]
+         ELSE T1
+    ELSE IF ~T.active \/ age = "young"
     THEN [T1 EXCEPT !.keeper[k] = 0]            \* PieceRef dropped at once: removes the keeper entry of the key
     ELSE IF Cardinality({i \in DOMAIN T.buf : T.buf[i][1] = "e"}) >= BufCap
     THEN [T1 EXCEPT !.keeper[k] = 0, !.seq = @ + 1, !.shed = @ \cup {k}]   \* buffer overflow: the flusher drops the piece
@@ -113,8 +124,6 @@ MemInsert(T, k, v, loc, age) ==
 -------------------------------------------------------------------------------
 (* flusher and io task                                                        *)
 
-\* indexer insert_inner: replaced only by an equal-or-higher sequence
-IndexPut(ix, h, new) == IF new.seq >= ix[h].seq \/ ix[h].kind = "none" THEN [ix EXCEPT ![h] = new] ELSE ix
 
 RECURSIVE ApplyBatch(_, _)
 \* data + blob index durable, then indexer.insert_batch; tombstones go to the log
@@ -369,6 +378,8 @@ NoStaleNoForeign == \A k \in Keys \ (S.shed \cup S.late \cup S.revived) : WouldR
 LastLookupOK == (out.op.a \in {"get", "fetch"} /\ out.op.k \notin S.shed \cup S.late \cup S.revived) => out.res \in {0, S.truth[out.op.k]}
 
 \* C12
+\* an entry the admission filter rejects never reaches the device
+RejectedNeverOnDevice == \A e \in S.disk : e.h \notin Reject
 InMemNeverOnDevice == \A e \in S.disk : \A k \in Keys : (e.k = k /\ S.truth[k] = e.v) => S.loc[k] # "inmem"
 OnDiskNotRetained == \A i \in DOMAIN S.mem : S.mem[i].loc # "ondisk"
 \* a lookup that hits does not offer the entry it returned to the disk tier again (evictions that
@@ -381,7 +392,7 @@ HitCausesNoWrite == (out.op.a = "get" /\ out.res # 0 /\ KeyLoc[out.op.k] # "ondi
 Collides(k) == \E k2 \in Keys \ {k} : Hash[k2] = Hash[k]
 ClosePersists ==
     (out.op.a = "reopen" /\ FlushOnClose) =>
-        \A k \in Keys \ (S.shed \cup S.late \cup S.revived) : (S.truth[k] # 0 /\ S.loc[k] # "inmem" /\ ~Collides(k)) => WouldRead(k) = S.truth[k]
+        \A k \in Keys \ (S.shed \cup S.late \cup S.revived) : (S.truth[k] # 0 /\ S.loc[k] # "inmem" /\ ~Collides(k) /\ Hash[k] \notin Reject) => WouldRead(k) = S.truth[k]
 
 TypeOK == /\ Len(S.mem) <= MemCap
           /\ S.inio = (S.io # <<>>)
@@ -391,5 +402,5 @@ StoreLoadOwnKey == out.op.a = "sload" => (out.res = 0 \/ S.vkey[out.res] = out.o
 
 \* (nothing is claimed about the state left behind by a close() that could not return: the run ends there)
 Inv == S.stuck \/ (TypeOK /\ NoStaleNoForeign /\ LastLookupOK /\ StoreLoadOwnKey /\ OnDiskNotRetained /\ HitCausesNoWrite
-       /\ InMemNeverOnDevice /\ ClosePersists)
+       /\ InMemNeverOnDevice /\ RejectedNeverOnDevice /\ ClosePersists)
 ===============================================================================
